@@ -68,6 +68,14 @@ class OrderedSet(set):
         return iter(list(self._order))
 
 
+# port names that differ only in letter case (not in the first letter): a case-insensitive ordering
+# of such names is not a total order
+NAMES_C = ['auxLed', 'auxLED', 'auxled']
+_FC2 = dg.parse(dg.root([
+    dg.interface(['I'], [dg.event('e'), dg.event('o', 'out')]),
+    dg.component(['C'], [dg.port('api', ['I'], 'provides')] + [dg.port(n, ['I'], 'requires') for n in NAMES_C])]))
+
+
 def _ordered_set(names: List[str], perm) -> set:
     return OrderedSet(list(names), list(perm))
 
@@ -129,6 +137,14 @@ def make_cfg(template: int, perm, plain: bool = False) -> PortsCfg:
         return PortsCfg(PortsSemanticsCfg(none, all_),
                         PortsSemanticsCfg(PortSelect(_ordered_set(two, range(2))),
                                           PortSelect({NAMES_R[perm[2]]})))
+    if template == 5:     # case-variant names, all three named STS
+        return PortsCfg(PortsSemanticsCfg(none, all_),
+                        PortsSemanticsCfg(PortSelect(_ordered_set(NAMES_C, perm)), rem))
+    if template == 6:     # case-variant names: two named MTS, one STS
+        two = [NAMES_C[i] for i in perm[:2]]
+        return PortsCfg(PortsSemanticsCfg(all_, none),
+                        PortsSemanticsCfg(PortSelect({NAMES_C[perm[2]]}),
+                                          PortSelect(_ordered_set(two, range(2)))))
     if template == 3:     # provides: all three named MTS
         return PortsCfg(PortsSemanticsCfg(none, PortSelect(_ordered_set(NAMES_P, perm))),
                         PortsSemanticsCfg(all_, none))
@@ -139,7 +155,7 @@ def make_cfg(template: int, perm, plain: bool = False) -> PortsCfg:
 
 def _norm2(template: int, perm):
     """For template 2 the two configurations must name the same ports: normalise the reference."""
-    if template == 2:
+    if template in (2, 6):
         a, b = sorted(perm[:2])
         return (a, b, perm[2])
     return (0, 1, 2)
@@ -154,8 +170,9 @@ def h_cfg_text(template: int, pi: int) -> bool:
         return False
     if str(a) != str(b) or str(a.requires) != str(b.requires) or str(a.provides) != str(b.provides):
         return False
-    ma = a.match(set(NAMES_P), set(NAMES_R))
-    mb = b.match(_ordered_set(NAMES_P, (2, 1, 0)), _ordered_set(NAMES_R, (1, 2, 0)))
+    rnames, pnames = (NAMES_C, ['api']) if template >= 5 else (NAMES_R, NAMES_P)
+    ma = a.match(set(pnames), set(rnames))
+    mb = b.match(_ordered_set(pnames, tuple(reversed(range(len(pnames))))), _ordered_set(rnames, (1, 2, 0)))
     if list(ma.value.items()) != list(ma.value.items()):
         return False
     return ma == mb
@@ -164,9 +181,25 @@ def h_cfg_text(template: int, pi: int) -> bool:
 fast.nativize_text_layer()
 
 
-def _build(ports_cfg: PortsCfg):
-    cfg = Configuration('M.dzn', _FC, 'Shell', ns_ids_t('C'), ports_cfg, FacilitiesOrigin.CREATE, '(c)')
-    return [(f.filename, f.contents, f.hash) for f in Builder().build(cfg).files]
+def _build(ports_cfg: PortsCfg, template: int = 0, builder=None, prefix=None):
+    fc = _FC2 if template >= 5 else _FC
+    cfg = Configuration('M.dzn', fc, 'Shell', ns_ids_t('C'), ports_cfg, FacilitiesOrigin.CREATE, '(c)',
+                        support_files_ns_prefix=ns_ids_t(prefix) if prefix else None)
+    return [(f.filename, f.contents, f.hash) for f in (builder or Builder()).build(cfg).files]
+
+
+PREFIXES = [None, 'My.Sup', 'Other']
+
+
+def h_builder_reuse(ta: int, tb: int, pa: int, pb: int) -> bool:
+    """Output depends on model and configuration only: a Builder that built configuration A before
+    gives for configuration B exactly what a fresh Builder gives."""
+    ta, tb = pick(range(7), ta), pick(range(7), tb)
+    pra, prb = pick(PREFIXES, pa), pick(PREFIXES, pb)
+    builder = Builder()
+    _build(make_cfg(ta, (0, 1, 2)), ta, builder, pra)
+    got = _build(make_cfg(tb, (0, 1, 2)), tb, builder, prb)
+    return got == _build(make_cfg(tb, (0, 1, 2)), tb, None, prb)
 
 
 def h_build_order(template: int, pi: int, mode: int) -> bool:
@@ -176,10 +209,10 @@ def h_build_order(template: int, pi: int, mode: int) -> bool:
     perm = pick(PERMS, pi)
     _install_permset()
     ITER_MODE[0] = 0
-    ref = _build(make_cfg(template, _norm2(template, perm)))
+    ref = _build(make_cfg(template, _norm2(template, perm)), template)
     ITER_MODE[0] = pick([0, 1, 2], mode)
     try:
-        return ref == _build(make_cfg(template, perm))
+        return ref == _build(make_cfg(template, perm), template)
     finally:
         ITER_MODE[0] = 0
 
@@ -191,7 +224,7 @@ sys.path.insert(0, %(verif)r)
 from props import c08
 tpl, perm = %(tpl)d, %(perm)r
 cfg = c08.make_cfg(tpl, perm, plain=True)
-files = c08._build(cfg)
+files = c08._build(cfg, tpl)
 print(json.dumps({'str': str(cfg), 'digest': hashlib.sha256(repr(files).encode()).hexdigest()}))
 '''
 
@@ -270,15 +303,20 @@ def h_hash(name: str, contents: str) -> bool:
 
 
 SPECS = [
-    H('h_cfg_text', 'deep', pre=['0 <= template <= 4', '0 <= pi < 6'],
+    H('h_cfg_text', 'deep', pre=['0 <= template <= 6', '0 <= pi < 6'],
       quick=dict(ct=200, pt=30), thorough=dict(ct=600, pt=60), replay_fn='seed_sweep_replay',
-      bounds='5 configuration templates with explicit sets of 2-3 port names x all 6 construction orders '
+      bounds='7 configuration templates with explicit sets of 2-3 port names (incl. names differing only in letter '
+             'case) x all 6 construction orders '
              '(set iteration order = symbolic permutation)'),
-    H('h_build_order', 'deep', pre=['0 <= template <= 4', '0 <= pi < 6', '0 <= mode <= 2'],
+    H('h_build_order', 'deep', pre=['0 <= template <= 6', '0 <= pi < 6', '0 <= mode <= 2'],
       quick=dict(ct=280, pt=120), thorough=dict(ct=900, pt=200), replay_fn='seed_sweep_replay',
-      shards=lambda p: [f'template == {t}' for t in range(5)],
-      bounds='full Builder.build on a 3+3-port component, 5 templates x 6 iteration orders of the explicit '
+      shards=lambda p: [f'template == {t}' for t in range(7)],
+      bounds='full Builder.build on a 3+3-port component, 7 templates x 6 iteration orders of the explicit '
              'sets x 3 iteration orders of library-created sets'),
+    H('h_builder_reuse', 'deep', pre=['0 <= ta < 7', '0 <= tb < 7', '0 <= pa < 3', '0 <= pb < 3'],
+      quick=dict(ct=280, pt=120), thorough=dict(ct=900, pt=200),
+      shards=lambda p: [f'ta == {t}' for t in range(7)],
+      bounds='one Builder instance: every ordered pair of 7 templates x 3 support-namespace prefixes each'),
     H('h_hash', 'hunt', pre=['len(name) <= 2', 'len(contents) <= {N}'],
       quick=dict(N=3, ct=60, pt=20), thorough=dict(N=80, ct=600, pt=30),
       bounds='MD5 identity on realised witness strings (len <= {N}); exploration only'),
